@@ -559,6 +559,65 @@ func runWriters() {
 	}
 }
 
+// runWriters128: the check character of every Code 128 symbol the writer draws, judged on the
+// symbol's OWN symbol characters (read off the modules by table lookup): (start + sum i*v_i) mod 103.
+// Contents: every sequence of 1..5 tokens from {1, 2, 12, 34, a, A, SOH, FNC1, FNC2, FNC3, FNC4} -
+// digits, pairs that select code set C, both letter cases, a control character and the four
+// function characters (written as U+00F1..U+00F4), in every position next to each other. A content
+// the writer refuses is not judged here.
+func runWriters128() {
+	tokens := []string{"1", "2", "12", "34", "a", "A", "\x01", "\u00f1", "\u00f2", "\u00f3", "\u00f4"}
+	var contents []string
+	var gen func(cur string, n int)
+	gen = func(cur string, n int) {
+		if cur != "" {
+			contents = append(contents, cur)
+		}
+		if n == 0 {
+			return
+		}
+		for _, t := range tokens {
+			gen(cur+t, n-1)
+		}
+	}
+	gen("", chk.Pick(4, 5))
+	contents = uniq(contents)
+	sweep(fmt.Sprintf("writer Code 128: %d contents (all sequences of up to %d tokens from {1, 2, 12, 34, a, A, SOH, FNC1..FNC4}): the check character of the drawn symbol verifies on the symbol's own characters", len(contents), chk.Pick(4, 5)), len(contents), 500, func(l *mc.Local, i int) { writer128Case(l, contents[i]) })
+}
+
+func writer128Case(l *mc.Local, input string) {
+	c := &fcase{Kind: "writer", Sym: "code128", Num: input}
+	var m *gozxing.BitMatrix
+	var err error
+	pm, site := mc.Guard(func() {
+		m, err = oned.NewCode128Writer().Encode(input, gozxing.BarcodeFormat_CODE_128, 0, 0, map[gozxing.EncodeHintType]interface{}{gozxing.EncodeHintType_MARGIN: 0})
+	})
+	l.Count("evaluations", 1)
+	if pm != "" {
+		chk.Violation("C10/panic/"+site, fmt.Sprintf("panic %q in the Code 128 writer for %q", pm, input), c)
+		return
+	}
+	if err != nil || m == nil {
+		l.Count("Code 128 contents refused by the writer (not judged)", 1)
+		return
+	}
+	mods := make([]bool, m.GetWidth())
+	for x := range mods {
+		mods[x] = m.Get(x, 0)
+	}
+	vals, verr := ref.Code128ValuesOf(mods)
+	n := len(vals)
+	if verr != nil || n < 4 || vals[n-1] != ref.C128Stop || vals[0] < ref.C128StartA || vals[0] > ref.C128StartC {
+		chk.Violation("C10/writer/code128/unrecognised-symbol", fmt.Sprintf("Code 128 writer given %q draws modules that are no start .. stop sequence of symbol characters (%v, %v)", input, vals, verr), c)
+		return
+	}
+	if want := ref.Code128Check(vals[:n-2]); vals[n-2] != want {
+		chk.Violation("C10/writer/code128/wrong-check-character", fmt.Sprintf("Code 128 writer given %q draws the symbol characters %v: the check character is %d, (start + sum i*v_i) mod 103 = %d", input, vals[:n-1], vals[n-2], want), c)
+		return
+	}
+	l.Distinct("nontrivial", "w128|"+input)
+}
+
 // ------------------------------------------------------------------ expansion / zero-suppression
 
 func runExpand() {
@@ -1103,7 +1162,11 @@ func replay() {
 	fmt.Println("replay:", c.String())
 	switch c.Kind {
 	case "writer":
-		writerCase(l, c.Sym, c.Num)
+		if c.Sym == "code128" {
+			writer128Case(l, c.Num)
+		} else {
+			writerCase(l, c.Sym, c.Num)
+		}
 	case "expand":
 		got, ok := libExpand(c.Num)
 		fmt.Printf("convertUPCEtoUPCA(%q) = %q (available %v), reference %q\n", c.Num, got, ok, ref.UPCEExpand(c.Num))
@@ -1132,6 +1195,7 @@ func main() {
 	}
 	runExpand()
 	runWriters()
+	runWriters128()
 	runUPCE()
 	runEAN8()
 	runSubstEAN()
